@@ -42,6 +42,7 @@ func checkC01(c c01Case, o *Obs) error {
 	o.LabelIf(c.Start > 0 || c.End > 0, "window")
 	o.LabelIf(c.Wrap > 0, "wrap")
 	o.LabelIf(c.Threads > 1, "threads>1")
+	o.LabelIf(c.Wrap > 65535, "wrap>65535")
 	nt := false
 	for _, r := range c.In.Recs {
 		if r.Kind != "aligned" {
@@ -137,6 +138,22 @@ func samOptsFor(conflict bool) samGenOpts {
 }
 
 func genC01(t *rapid.T) c01Case {
+	if rapid.IntRange(0, 399).Draw(t, "veryLongRef") == 0 {
+		// rows longer than 64 KiB, wrapped at widths around and above 65536 (line buffers of writers end there)
+		n := rapid.SampledFrom([]int{66000, 70000, 131100}).Draw(t, "veryLongLen")
+		unit := genACGT(t, 997, "veryLongUnit")
+		ref := strings.Repeat(unit, n/997+1)[:n]
+		c := c01Case{In: genSamInput(t, samGenOpts{maxQueries: 2, maxRecs: 2, fixedRef: ref, fixedRefName: "longref"})}
+		c.Pad = rapid.Bool().Draw(t, "pad")
+		c.Start, c.End = -1, -1
+		if rapid.Bool().Draw(t, "window") {
+			c.Start = rapid.IntRange(1, 1000).Draw(t, "start")
+			c.End = n - rapid.IntRange(0, 1000).Draw(t, "endBack")
+		}
+		c.Wrap = rapid.SampledFrom([]int{65535, 65536, 65537, 66000, n - 1, n, n + 1, 60}).Draw(t, "bigWrap")
+		c.Threads = rapid.SampledFrom([]int{1, 2}).Draw(t, "threads")
+		return c
+	}
 	c := c01Case{In: genSamInput(t, samOptsFor(true))}
 	L := len(c.In.Ref)
 	c.Pad = rapid.Bool().Draw(t, "pad")
